@@ -7,6 +7,38 @@
 use crate::util::*;
 use std::collections::HashMap;
 use std::io::Write;
+use std::sync::Mutex;
+use std::time::Instant;
+
+/// What the main thread is executing right now (for the watchdog): start time, pre-state, operation.
+pub static WATCH: Mutex<Option<(Instant, String, String)>> = Mutex::new(None);
+
+/// Watchdog: if one operation of the implementation does not return within `limit_s` seconds
+/// (an endless loop), write a stats file holding that finding — pre-state and operation are the
+/// replay — and exit with status 3.
+pub fn start_watchdog(limit_s: u64, stats_path: Option<String>, scope: String) {
+    std::thread::spawn(move || loop {
+        std::thread::sleep(std::time::Duration::from_millis(200));
+        let cur = WATCH.lock().unwrap().clone();
+        if let Some((t, pre, op)) = cur {
+            if t.elapsed().as_secs() >= limit_s {
+                let what = format!("`{}` did not return within {} s (endless loop?)", op, limit_s);
+                let hist = format!("[{},{}]", jstr(&format!("state x{}", pre)), jstr(&op));
+                let js = format!(
+                    "{{\"scope\":{},\"states\":0,\"transitions\":0,\"histories\":0,\"nontrivial_states\":0,\"exhaustive\":false,\"capped\":true,\"hist\":{{}},\"findings\":[{{\"property\":\"C12\",\"what\":{},\"history\":{}}},{{\"property\":\"*\",\"what\":{},\"history\":{}}}],\"samples\":[]}}",
+                    jstr(&scope), jstr(&what), hist, jstr(&what), hist
+                );
+                match &stats_path {
+                    Some(p) => {
+                        let _ = std::fs::write(p, js);
+                    }
+                    None => eprintln!("{js}"),
+                }
+                std::process::exit(3);
+            }
+        }
+    });
+}
 
 #[derive(Clone, Debug, PartialEq)]
 pub struct Op {
@@ -193,6 +225,7 @@ fn transition(
     salt: usize,
     findings: &mut Vec<Finding>,
 ) -> (OpOut, Vec<u8>) {
+    *WATCH.lock().unwrap() = Some((Instant::now(), hex(pre), op.text()));
     let mut a = ABuf::new_skewed(pre, salt % 3, 0xA5, sut.skew());
     let out_a = sut.apply(&mut a, op);
     let post_a = a.bytes().to_vec();
@@ -231,6 +264,7 @@ fn transition(
         });
     }
     findings.extend(sut.oracle(pre, op, &out_a, &post_a));
+    *WATCH.lock().unwrap() = None;
     (out_a, post_a)
 }
 
@@ -442,6 +476,12 @@ pub fn script(sut: &dyn Sut, parse: &dyn Fn(&str) -> Option<Op>, lines: &[String
     writeln!(out, "S {} {}", sid, hex(&cur)).unwrap();
     let mut hist: Vec<String> = vec![];
     for l in lines {
+        if let Some(h) = l.trim().strip_prefix("state x") {
+            cur = unhex(h);
+            sid += 1;
+            writeln!(out, "S {} {}", sid, hex(&cur)).unwrap();
+            continue;
+        }
         let Some(op) = parse(l) else {
             if verbose {
                 eprintln!("(skipping unparsable line: {l})");
